@@ -965,6 +965,24 @@ type zz_verif_c30Hist struct {
 	Recs    []zz_verif_c30Rec
 	Walk    zz_verif_c30Walk
 	Profile string
+	Panic   string // "<op>/<site>\nmessage\nstack" when a client call panicked
+}
+
+// zz_verif_c30Wait waits for the clients, or for the first panic among them.
+func zz_verif_c30Wait(wg *sync.WaitGroup, panicked chan string) string {
+	done := make(chan struct{})
+	go func() { wg.Wait(); close(done) }()
+	select {
+	case <-done:
+		select {
+		case p := <-panicked:
+			return p
+		default:
+			return ""
+		}
+	case p := <-panicked:
+		return p
+	}
 }
 
 var zz_verif_c30ConcWeights = [zz_verif_c30NKinds]int{zz_verif_c30Add: 28, zz_verif_c30Pop: 22, zz_verif_c30Bump: 8, zz_verif_c30SetOK: 14, zz_verif_c30SetFail: 7, zz_verif_c30MRM: 6, zz_verif_c30Len: 8, zz_verif_c30Iter: 5}
@@ -1020,6 +1038,7 @@ func zz_verif_c30GenHistory(r zz_verif_c30Rand, idx int) *zz_verif_c30Hist {
 	var start atomic.Bool
 	var wg sync.WaitGroup
 	out := make([][]zz_verif_c30Rec, h.Clients)
+	panicked := make(chan string, h.Clients)
 	for c := 0; c < h.Clients; c++ {
 		wg.Add(1)
 		go func(c int) {
@@ -1032,7 +1051,11 @@ func zz_verif_c30GenHistory(r zz_verif_c30Rand, idx int) *zz_verif_c30Hist {
 				if p.UsePopped && havePopped {
 					in.ID, in.Ver = pid, pver
 				}
-				rc := do(c, in)
+				var rc zz_verif_c30Rec
+				if msg, stack, pn := kit.Guard(func() { rc = do(c, in) }); pn {
+					panicked <- zz_verif_c30KindName[in.Kind] + "/" + kit.PanicSite(stack) + "\n" + msg + "\n" + stack
+					return
+				}
 				if in.Kind == zz_verif_c30Pop && rc.Out.OK && !rc.Out.Ghost && rc.Out.Bad == "" && rc.Out.ID >= 0 && rc.Out.ID < zz_verif_c30MaxIDs {
 					havePopped, pid, pver = true, rc.Out.ID, rc.Out.Ver
 				}
@@ -1044,7 +1067,11 @@ func zz_verif_c30GenHistory(r zz_verif_c30Rand, idx int) *zz_verif_c30Hist {
 		}(c)
 	}
 	start.Store(true)
-	wg.Wait()
+	if h.Panic = zz_verif_c30Wait(&wg, panicked); h.Panic != "" {
+		// a panic inside the queue leaves q.mu locked: the other clients may be blocked
+		// for ever; they are abandoned together with this queue.
+		return h
+	}
 	for c := range out {
 		h.Recs = append(h.Recs, out[c]...)
 	}
@@ -1162,6 +1189,12 @@ func zz_verif_c30Overlaps(recs []zz_verif_c30Rec) (pairs int) {
 
 func zz_verif_c30CheckHistory(rec *kit.Rec, h *zz_verif_c30Hist, timeout time.Duration) {
 	rec.Count("conc_histories", 1)
+	if h.Panic != "" {
+		first, rest, _ := strings.Cut(h.Panic, "\n")
+		rec.Violation("conc/panic/"+first, rest, map[string]any{"config": h.Cfg.Name, "clients": h.Clients, "profile": h.Profile, "history_index": h.Index,
+			"note": "a queue call panicked in a client goroutine during a concurrent history; calls completed before are not recorded"})
+		return
+	}
 	rec.Count("conc_ops", int64(len(h.Recs)))
 	pairs := zz_verif_c30Overlaps(h.Recs)
 	rec.Count("conc_overlapping_call_pairs", int64(pairs))
@@ -1309,7 +1342,10 @@ func zz_verif_c30Concurrent(rec *kit.Rec, n int, timeout time.Duration) {
 		}
 		hs := make([]*zz_verif_c30Hist, m)
 		for i := range hs {
-			hs[i] = zz_verif_c30GenHistory(r, done+i)
+			// the observer's own calls (prefix / drain) run on this goroutine: contain a panic
+			if msg, stack, pn := kit.Guard(func() { hs[i] = zz_verif_c30GenHistory(r, done+i) }); pn {
+				hs[i] = &zz_verif_c30Hist{Index: done + i, Cfg: zz_verif_c30Cfgs[0], Profile: "?", Panic: "observer/" + kit.PanicSite(stack) + "\n" + msg + "\n" + stack}
+			}
 		}
 		var wg sync.WaitGroup
 		ch := make(chan *zz_verif_c30Hist)
@@ -1352,6 +1388,7 @@ func zz_verif_c30Stress(rec *kit.Rec, n int) {
 		var wg sync.WaitGroup
 		var pops, bad atomic.Int64
 		var badMsg atomic.Value
+		panicked := make(chan string, clients)
 		for c := range plans {
 			wg.Add(1)
 			go func(ops []zz_verif_c30In) {
@@ -1359,7 +1396,11 @@ func zz_verif_c30Stress(rec *kit.Rec, n int) {
 				for !start.Load() {
 				}
 				for _, in := range ops {
-					out := zz_verif_c30Exec(q, in)
+					var out zz_verif_c30Out
+					if msg, stack, pn := kit.Guard(func() { out = zz_verif_c30Exec(q, in) }); pn {
+						panicked <- zz_verif_c30KindName[in.Kind] + "/" + kit.PanicSite(stack) + "\n" + msg + "\n" + stack
+						return
+					}
 					if out.OK {
 						pops.Add(1)
 					}
@@ -1371,8 +1412,12 @@ func zz_verif_c30Stress(rec *kit.Rec, n int) {
 			}(plans[c])
 		}
 		start.Store(true)
-		wg.Wait()
 		rec.Count("stress_runs", 1)
+		if pn := zz_verif_c30Wait(&wg, panicked); pn != "" {
+			first, rest, _ := strings.Cut(pn, "\n")
+			rec.Violation("stress/panic/"+first, rest, map[string]any{"config": cfg.Name, "clients": clients, "ids": nIDs, "run": si, "plans": plans})
+			continue // q.mu may be locked for ever: abandon this queue and its clients
+		}
 		rec.Count("stress_successful_pops", pops.Load())
 		if bad.Load() > 0 {
 			rec.Violation("stress/corrupt-options", fmt.Sprint(badMsg.Load()), map[string]any{"config": cfg.Name, "clients": clients, "ids": nIDs, "run": si})
@@ -1388,7 +1433,12 @@ func zz_verif_c30Stress(rec *kit.Rec, n int) {
 func TestVerif_C30(t *testing.T) {
 	rec := kit.Open("C30")
 	defer rec.Done()
-	zz_verif_c30Sequential(rec, rec.N(6000, 400000))
-	zz_verif_c30Concurrent(rec, rec.N(2500, 60000), time.Duration(rec.N(10, 20))*time.Second)
-	zz_verif_c30Stress(rec, rec.N(300, 5000))
+	t0 := time.Now()
+	zz_verif_c30Sequential(rec, rec.N(6000, 200000))
+	t1 := time.Now()
+	zz_verif_c30Concurrent(rec, rec.N(2500, 30000), time.Duration(rec.N(10, 20))*time.Second)
+	t2 := time.Now()
+	zz_verif_c30Stress(rec, rec.N(300, 2000))
+	// evidence only (never an oracle)
+	rec.Note("phase_seconds", map[string]float64{"sequential": t1.Sub(t0).Seconds(), "concurrent": t2.Sub(t1).Seconds(), "stress": time.Since(t2).Seconds()})
 }
